@@ -28,9 +28,10 @@ const (
 	opPipeWrite // second phase: wait until the offered data is consumed
 	opPipeClose
 	opChoice
+	opChanLen
 )
 
-var kindNames = []string{"start", "send", "recv", "close", "select", "lock", "rlock", "wait", "point", "pipe-read", "pipe-write", "pipe-close", "choice"}
+var kindNames = []string{"start", "send", "recv", "close", "select", "lock", "rlock", "wait", "point", "pipe-read", "pipe-write", "pipe-close", "choice", "chan-len"}
 
 type chanState struct {
 	id      uint64 // canonical id (first touch)
@@ -442,7 +443,7 @@ func (x *Exec) enabledOp(g *G) bool {
 		return true
 	}
 	switch op.kind {
-	case opStart, opPoint, opClose, opPipeClose, opChoice:
+	case opStart, opPoint, opClose, opPipeClose, opChoice, opChanLen:
 		return true
 	case opSend:
 		return x.canSend(g, op.ch)
@@ -713,6 +714,8 @@ func (x *Exec) plan(g *G) plan {
 		return x.planRecv(g, op.ch)
 	case opClose:
 		return plan{ok: true, what: mix(4, op.ch.id), clocks: []*vclock{&op.ch.clock}}
+	case opChanLen:
+		return plan{ok: true, what: mix(12, op.ch.id), clocks: []*vclock{&op.ch.clock}}
 	case opSelect:
 		var en []int
 		for i, sc := range op.cases {
@@ -823,6 +826,9 @@ func (x *Exec) perform(g *G) {
 		}
 		c.closed = true
 		x.event(g, mix(4, c.id), []*vclock{&c.clock})
+	case opChanLen:
+		op.selIdx = len(op.ch.buf)
+		x.event(g, mix(12, op.ch.id), []*vclock{&op.ch.clock})
 	case opSelect:
 		var en []int
 		for i, sc := range op.cases {
